@@ -370,7 +370,16 @@ let explore_cases (cls : char) (cases : case list) (oc : out_channel) (limit : i
           List.iter (fun st -> Printf.fprintf oc "%s\n" (String.concat " " (Array.to_list st))) pre;
           Printf.fprintf oc "sched %s\n" (String.concat " " (List.map (fun t -> string_of_int (int_of_nat t)) sc))
         end) scheds;
-      Printf.fprintf oc "# %s: %d schedules\n" c.name n
+      let cls_name = (match known_class keqb directed !h (thread_progs c) with
+        | None -> "none"
+        | Some KIsolate -> "isolate-vs-concurrent-access"
+        | Some KDisconnect -> "disconnect-vs-concurrent-access"
+        | Some KTryConnect -> "try_connect-check-then-act"
+        | Some KConSeveral -> "connect-observed-by-several-calls"
+        | Some KConSamePair -> "connect-connect-same-pair-order"
+        | Some KUndirSelfLoop -> "undirected-self-loop-connect-half-visible"
+        | Some KUndirIterShift -> "undirected-iteration-shifted-by-connect") in
+      Printf.fprintf oc "# %s: %d schedules class=%s\n" c.name n cls_name
     end) cases
 
 
